@@ -150,9 +150,20 @@ S2_TABLE = [
     [("Op", None, op, ["1"], True) for op in ("ShiftLeft", "ShiftRight")]
 
 
+I32_TABLE = [(k, None, None, ["0"], True) for k in ("ArrayLiteral", "TupleLiteral", "ArrayRepeatLiteral", "ArrayRepeatLiteralConst")]
+
+
 def rule_s2(ctx):
-    res = RuleResult("S2", "constrain_type pushes the expected type into every child that shares the node's type")
-    fid = "check::constrain_type"
+    res = RuleResult("S2", "constrain_type / constrain_to_i32 reach every child that shares the node's type")
+    _recursion_table(ctx, res, "check::constrain_type", S2_TABLE, True)
+    i32 = [f["id"] for f in ctx.facts["fns"] if f["id"].endswith("::constrain_to_i32") and "mir" in f]
+    if len(i32) != 1:
+        raise AnchorMissing("S2: expected one constrain_to_i32 (defaulting of unconstrained literals in `let mut`), found %r" % i32)
+    _recursion_table(ctx, res, i32[0], I32_TABLE, False)
+    return res
+
+
+def _recursion_table(ctx, res, fid, table, has_expected):
     body = ctx.body(fid)
     from .C17 import ok_exits
     oks = ok_exits(body)
@@ -160,7 +171,7 @@ def rule_s2(ctx):
         raise AnchorMissing("S2: constrain_type has no accepting exit")
     recs = [(b, t) for b, t in body.calls() if mir.callee(t) == fid]
     variants = {v["name"] for v in ctx.adt("ast::ExprEnum")["variants"]}
-    for (kind, exp_kinds, op, children, every_path) in S2_TABLE:
+    for (kind, exp_kinds, op, children, every_path) in table:
         if kind not in variants:
             raise AnchorMissing("S2: ExprEnum::%s no longer exists (table out of date)" % kind)
         for ek in (exp_kinds or (None,)):
@@ -182,13 +193,13 @@ def rule_s2(ctx):
                                 mine.add(b)
                         elif r == SELF1 and len(p) >= 3 and p[0] == "inner" and p[1] == "as " + kind and p[2] == ch:
                             mine.add(b)
-                label = "%s%s%s child %s" % (kind, "(%s)" % op if op else "", " against %s" % ek if ek else "", ch)
+                label = "%s: %s%s%s child %s" % (mir.last_seg(fid), kind, "(%s)" % op if op else "", " against %s" % ek if ek else "", ch)
                 if not mine:
                     res.bad(Finding("S2", fid, "%s is not constrained" % label,
                                     "constrain_type does not call itself on this child: the node takes the expected type while literals inside the child keep their default width", body.fn["sp"]))
                     continue
                 # the type handed down derives from the expected type
-                if not all(any(r == ("arg", 2) for (r, p) in body.trace_operand(body.term(b)["args"][1])) for b in mine):
+                if has_expected and not all(any(r == ("arg", 2) for (r, p) in body.trace_operand(body.term(b)["args"][1])) for b in mine):
                     res.bad(Finding("S2", fid, "%s is constrained to something other than the expected type" % label, "the type pushed into the child does not derive from `expected`", body.term(sorted(mine)[0])["sp"]))
                     continue
                 if every_path:
@@ -209,7 +220,6 @@ def rule_s2(ctx):
                         res.bad(Finding("S2", fid, "%s can be skipped" % label, "a path reaches the accepting exit without constraining this child (blocks %s)" % w[:12], body.term(sorted(mine)[0])["sp"]))
                         continue
                 res.ok({"node": label, "verdict": "constrained recursively" + (" on every accepting path" if every_path else "")})
-    return res
 
 
 def rule_s3(ctx):
